@@ -171,6 +171,8 @@ def cases_for(tier, s):
     for cell in ("triangle", "tetrahedron", "quadrilateral") if tier == "quick" else CELLS:
         for wh in whiches:
             add("expr_suite", cell, cdeg=2 if cell in ("triangle", "quadrilateral") else 1, p={"which": wh})
+    for wh in range(5):
+        add("expr_dropped", ["triangle", "quadrilateral", "tetrahedron", "interval", "hexahedron"][wh], p={"which": wh})
     add("expr_suite", "triangle", p={"which": "rank1_vector", "pts": "vertices"})
     add("expr_suite", "tetrahedron", p={"which": "rank0_tensor", "pts": "lagrange2"})
     add("expr_suite", "hexahedron", p={"which": "rank0_scalar", "pts": "interior", "npts": 1})
